@@ -124,6 +124,52 @@ def purity(year):
     return obs
 
 
+def helper_purity():
+    """The repository methods that line definitions may call (whitelisted by name in PURE_METHODS) are themselves pure readers:
+    no store to an attribute, to a class / module level container or to their arguments, no global / nonlocal.  (A memo in
+    Form.threshold shared by all forms of the process would make a line's value depend on what was solved before.)"""
+    from habutax import form as Fm, fields as Fl
+    obs = []
+    targets = [(Fm.Form, 'threshold'), (Fl.Field, 'form'), (Fm.Form, 'instance'), (Fm.Form, 'name'), (Fl.Field, 'not_implemented'), (Fl.Field, 'name'), (Fl.Field, 'base_name')]
+    for cls, meth in targets:
+        fn = cls.__dict__.get(meth)
+        oid = f'C05/frames/helper/{cls.__name__}.{meth}'
+        if fn is None:
+            continue
+        try:
+            node = extract.func_ast(fn)
+        except Exception as ex:
+            obs.append(Ob(id=oid, status=oblig.UNDECIDED, backend='ast-scan', function=f'{cls.__module__.split(".")[-1]}.py:{cls.__name__}.{meth}', solver_output=f'no source: {ex}'))
+            continue
+        problems = []
+        local = {a.arg for a in node.args.args} - {'self', 'cls'}
+        assigned = {t.id for n in ast.walk(node) if isinstance(n, (ast.Assign, ast.AugAssign, ast.AnnAssign, ast.For))
+                    for t in ast.walk(n.targets[0] if isinstance(n, ast.Assign) else n.target) if isinstance(t, ast.Name)}
+        for n in ast.walk(node):
+            if isinstance(n, (ast.Global, ast.Nonlocal)):
+                problems.append(f'{type(n).__name__.lower()} statement at line {n.lineno}')
+            elif isinstance(n, (ast.Assign, ast.AugAssign, ast.AnnAssign)):
+                tg = n.targets if isinstance(n, ast.Assign) else [n.target]
+                for t in tg:
+                    for e in ast.walk(t):
+                        if isinstance(e, ast.Attribute):
+                            problems.append(f'store through attribute .{e.attr} at line {n.lineno}')
+                        if isinstance(e, ast.Subscript) and isinstance(e.value, ast.Name) and e.value.id not in assigned:
+                            problems.append(f'store into {e.value.id}[...] (not a local) at line {n.lineno}')
+            elif isinstance(n, ast.Call) and isinstance(n.func, ast.Attribute) and n.func.attr in ('append', 'extend', 'update', 'setdefault', 'add', 'pop', 'clear', 'insert', 'remove', '__setitem__', '__setattr__') \
+                    and not (isinstance(n.func.value, ast.Name) and n.func.value.id in assigned):
+                problems.append(f'mutating call .{n.func.attr}() on a non-local at line {n.lineno}')
+            elif isinstance(n, ast.Call) and isinstance(n.func, ast.Name) and n.func.id in ('setattr', 'delattr'):
+                problems.append(f'{n.func.id}() at line {n.lineno}')
+        fid = f'{cls.__module__.split(".")[-1]}.py:{cls.__name__}.{meth}'
+        if not problems:
+            obs.append(Ob(id=oid, backend='ast-scan', function=fid, clause=f'{cls.__name__}.{meth}() (callable from line definitions) writes nothing that outlives the call', vc='AST of the method'))
+        else:
+            obs.append(Ob(id=oid, status=oblig.REFUTED, backend='ast-scan', function=fid, clause=f'{cls.__name__}.{meth}() is not a pure reader: ' + '; '.join(sorted(set(problems))[:3]),
+                          witness={'problems': sorted(set(problems))[:6]}, replay={'reproduced': True, 'static': True}))
+    return obs
+
+
 def solver_order_frames():
     """sort_keys is used only as a sort key; InputStore reaches its config only through keyed access."""
     from habutax import solver, inputs
@@ -303,7 +349,7 @@ def solver_layer(tier, seed):
 
 
 def run(tier, seed, t0):
-    tasks = [Task('lean', lean_lemma), Task('frames', solver_order_frames), Task('setitem', store_setitem), Task('small', small_units.all_small), Task('solver', solver_layer, tier, seed, weight=20)]
+    tasks = [Task('lean', lean_lemma), Task('frames', solver_order_frames), Task('helpers', helper_purity), Task('setitem', store_setitem), Task('small', small_units.all_small), Task('solver', solver_layer, tier, seed, weight=20)]
     tasks += [Task(f'pure/{y}', purity, y, weight=3) for y in extract.YEARS]
     obs = oblig.run_tasks(tasks, jobs=8)
     for o in obs:
